@@ -897,23 +897,82 @@ package tally
 //@ pure func kspec1(prefix string, m0 map[string]string) string
 //@ pure func kspec2(prefix string, m0 map[string]string, m1 map[string]string) string
 
+// The ref-based abstraction kspec1/kspec2 ("the key of these tag-map objects")
+// is what the scope contracts (C04, C09, C11) use; it is an UNCHECKED
+// abstraction that relies on tag maps being immutable once built.  The
+// content-based specification below is what the writer is verified against.
+
+//@ pred kNoEmpty(maps []map[string]string) { !("" in maps[0]) && (len(maps) == 2 ==> !("" in maps[1])) }
+//@ pred kD1s(maps []map[string]string) { setif(len(maps) == 2, dom(maps[1])) }
+//@ pred kDs(maps []map[string]string) { sunion(dom(maps[0]), kD1s(maps)) }
+//@ pred kVs(maps []map[string]string) { restrict(kDs(maps), override(valsof(maps[0]), kD1s(maps), valsof(maps[1]))) }
+
 //@ func keyForPrefixedStringMaps
 //@   property C05
-//@   trusted
 //@   allocs
 //@   requires len(maps) == 1 || len(maps) == 2
-//@   ensures @one_map len(maps) == 1 ==> result == kspec1(prefix, maps[0])
-//@   ensures @two_maps len(maps) == 2 ==> result == kspec2(prefix, maps[0], maps[1])
+//@   assume @go_maps_are_finite kfin(dom(maps[0])) && (len(maps) == 2 ==> kfin(dom(maps[1])))
+//@   abstracts @one_map len(maps) == 1 ==> result == kspec1(prefix, maps[0])
+//@   abstracts @two_maps len(maps) == 2 ==> result == kspec2(prefix, maps[0], maps[1])
+//@   ensures @canonical_key kNoEmpty(maps) ==> result == kkey(kacc(prefix, ""), kDs(maps), kVs(maps))
+//@   ensures @quiet quiet()
+
+// The public key functions: a deterministic function of the prefix and of the
+// map's entries only (so independent of iteration order).
+//@ func KeyForPrefixedStringMap
+//@   property C05
+//@   allocs
+//@   assume @go_maps_are_finite kfin(dom(stringMap))
+//@   abstracts @ref_key result == kspec1(prefix, stringMap)
+//@   ensures @canonical_key !("" in stringMap) ==> result == kkey(kacc(prefix, ""), dom(stringMap), kV1(stringMap))
+//@   ensures @map_untouched forall k string :: (k in stringMap) == old(k in stringMap) && (k in stringMap ==> stringMap[k] == old(stringMap[k]))
+//@   ensures @quiet quiet()
+
+//@ func KeyForStringMap
+//@   property C05
+//@   allocs
+//@   assume @go_maps_are_finite kfin(dom(stringMap))
+//@   abstracts @ref_key result == kspec1("", stringMap)
+//@   ensures @canonical_key !("" in stringMap) ==> result == kkey("", dom(stringMap), kV1(stringMap))
 //@   ensures @quiet quiet()
 
 //@ func keyForPrefixedStringMapsAsKey
 //@   property C05
-//@   trusted
 //@   allocs
+//@   modifies elems(buf)
 //@   requires len(maps) == 1 || len(maps) == 2
-//@   ensures @one_map len(maps) == 1 ==> str(result) == str(buf) + kspec1(prefix, maps[0])
-//@   ensures @two_maps len(maps) == 2 ==> str(result) == str(buf) + kspec2(prefix, maps[0], maps[1])
+//@   assume @go_maps_are_finite kfin(dom(maps[0])) && (len(maps) == 2 ==> kfin(dom(maps[1])))
+//@   abstracts @one_map len(maps) == 1 ==> str(result) == str(buf) + kspec1(prefix, maps[0])
+//@   abstracts @two_maps len(maps) == 2 ==> str(result) == str(buf) + kspec2(prefix, maps[0], maps[1])
 //@   ensures @quiet quiet()
+//@   case no_empty_key: requires kNoEmpty(maps)
+//@     ensures @canonical_key str(result) == kkey(kacc(prefix, old(str(buf))), kDs(maps), kVs(maps))
+//@   case empty_key: requires !kNoEmpty(maps)
+//@     ensures @canonical_key str(result) == kkey(kacc(prefix, old(str(buf))), kDs(maps), kVs(maps))
+//@   loop 1 invariant @idx 0 <= rangeindex+1 && rangeindex+1 <= len(maps) && quiet()
+//@   loop 1 invariant @keys_array_is_local fresh(keys) && other_arrays_unchanged(keys)
+//@   loop 1 invariant @keys_are_the_members_so_far seteq(elemset(keys), sunion(setif(rangeindex >= 0, dom(maps[0])), setif(rangeindex >= 1, dom(maps[1]))))
+//@   loop 2 invariant @idx 0 <= rangeindex#1 && rangeindex#1 < len(maps) && m == maps[rangeindex#1] && quiet()
+//@   loop 2 invariant @keys_array_is_local fresh(keys) && other_arrays_unchanged(keys)
+//@   loop 2 invariant @seen_keys_are_members forall x string :: {seenset()[x]} seenset()[x] ==> x in m
+//@   loop 2 invariant @keys_are_the_members_so_far seteq(elemset(keys), sunion(sunion(setif(rangeindex#1 >= 1, dom(maps[0])), setif(rangeindex#1 >= 2, dom(maps[1]))), seenset()))
+//@   loop 3 invariant @idx 0 <= rangeindex#2+1 && rangeindex#2+1 <= len(keys) && quiet()
+//@   loop 3 invariant @only_the_buffer_is_written other_arrays_unchanged(old(buf)) && (arrof(buf) == old(arrof(buf)) || fresh(buf))
+//@   loop 3 invariant @finite kfin(kDs(maps))
+//@   loop 3 invariant @sorted sortedUpTo(keys, len(keys))
+//@   loop 3 invariant @keys_are_exactly_the_members seteq(elemset(keys), kDs(maps))
+//@   loop 3 invariant @last_key lastKey == (rangeindex#2+1 == 0 ? "" : keys[rangeindex#2])
+//@   loop 3 invariant @rendered_so_far kNoEmpty(maps) ==> str(buf) == (rangeindex#2+1 == 0 ? kacc(prefix, old(str(buf))) : krs(kacc(prefix, old(str(buf))), kDs(maps), kVs(maps), keys[rangeindex#2]))
+//@   loop 4 invariant @idx 0 - 1 <= j && j <= len(maps) - 1 && quiet()
+//@   loop 4 invariant @only_the_buffer_is_written other_arrays_unchanged(old(buf)) && (arrof(buf) == old(arrof(buf)) || fresh(buf))
+//@   loop 4 invariant @sorted sortedUpTo(keys, len(keys))
+//@   loop 4 invariant @keys_are_exactly_the_members seteq(elemset(keys), kDs(maps))
+//@   loop 4 invariant @current_key 0 <= rangeindex#2 && rangeindex#2 < len(keys) && k#2 == keys[rangeindex#2] && lastKey == k#2 && (rangeindex#2 > 0 && kNoEmpty(maps) ==> keys[rangeindex#2-1] < k#2)
+//@   loop 4 invariant @finite kfin(kDs(maps))
+//@   loop 4 invariant @current_and_previous_are_members kDs(maps)[k#2] && (rangeindex#2 > 0 ==> kDs(maps)[keys[rangeindex#2-1]])
+//@   loop 4 invariant @predecessor_is_the_previous_key kNoEmpty(maps) ==> (khaspred(kDs(maps), k#2) <==> rangeindex#2 > 0) && (rangeindex#2 > 0 ==> kpred(kDs(maps), k#2) == keys[rangeindex#2-1])
+//@   loop 4 invariant @not_in_a_later_map forall t int :: j < t && t < len(maps) ==> !(k#2 in maps[t])
+//@   loop 4 invariant @key_and_equals_written kNoEmpty(maps) ==> str(buf) == (((rangeindex#2 == 0 ? kacc(prefix, old(str(buf))) : krs(kacc(prefix, old(str(buf))), kDs(maps), kVs(maps), keys[rangeindex#2-1]) + ",") + k#2) + "=")
 
 //@ func (*scope).copyAndSanitizeMap
 //@   property C04, C06
@@ -936,10 +995,15 @@ package tally
 //@   allocs
 //@   witness created *scope = subscope
 //@   witness stags map[string]string = tags
+//@   witness rawKey string = unsanitizedKey
+//@   witness cleanKey string = sanitizedKey
 //@   requires registryWF(r) && len(r.subscopes) >= 1 && scopeWF(parent)
 //@   requires NoopScope != nil && is(NoopScope, *scope) && dyn(NoopScope, *scope) != nil
 //@   assume @existing_scopes_share_the_parents_reporters forall x *scope :: same(x.cachedReporter, parent.cachedReporter) && same(x.reporter, parent.reporter)
 //@   modifies *
+//@   ensures @looked_up_under_the_canonical_key_of_prefix_and_merged_tags !old(r.root.closed) && !old(parent.closed) && !old("" in parent.tags) && !old("" in tags) ==> rawKey == old(kkey2(prefix, parent.tags, tags))
+//@   ensures @registered_under_the_canonical_key_of_the_sanitized_tags created != nil && !("" in parent.tags) && !("" in stags) ==> cleanKey == kkey2(prefix, parent.tags, stags)
+//@   ensures @a_new_scope_is_registered_under_the_key_of_its_own_prefix_and_tags created != nil && !("" in parent.tags) && !("" in stags) ==> cleanKey == kkey(kacc(created.prefix, ""), dom(created.tags), kV1(created.tags))
 //@   ensures @inert_under_a_closed_scope old(r.root.closed) || old(parent.closed) ==> result == dyn(NoopScope, *scope)
 //@   ensures @result_is_a_scope result != nil
 //@   ensures @new_scope_shape created != nil ==> created == result && created.prefix == prefix && created.separator == parent.separator && same(created.reporter, parent.reporter) && same(created.cachedReporter, parent.cachedReporter) && same(created.baseReporter, parent.baseReporter) && same(created.defaultBuckets, parent.defaultBuckets) && same(created.sanitizer, parent.sanitizer) && created.registry == parent.registry && created.bucketCache == parent.bucketCache && created.testScope == parent.testScope && !created.root && !created.closed
@@ -1251,3 +1315,58 @@ package tally
 //@   loop 1 invariant @idx 0 <= rangeindex+1 && rangeindex+1 <= len(values) && len(values) == len(v)
 //@   loop 1 invariant @done_so_far forall k int :: 0 <= k && k <= rangeindex ==> same(values[k], float64(v[k]) / float64(time.Second))
 //@   loop 1 invariant @spec_untouched forall k int :: 0 <= k && k < len(v) ==> v[k] == old(v[k])
+
+// ---------------------------------------------------------------------------
+// C05: the canonical key writer.
+
+//@ pred sortedUpTo(a []string, n int) { forall p, q int :: {a[p], a[q]} 0 <= p && p < q && q < n ==> a[p] <= a[q] }
+
+//@ func insertionSort
+//@   property C05
+//@   modifies elems(keys)
+//@   ensures @sorted sortedUpTo(keys, len(keys))
+//@   ensures @same_elements seteq(elemset(keys), old(elemset(keys)))
+//@   ensures @quiet quiet()
+//@   loop 1 invariant @range 1 <= i && n == len(keys)
+//@   loop 1 invariant @prefix_sorted sortedUpTo(keys, (i < n ? i : n))
+//@   loop 1 invariant @same_elements seteq(elemset(keys), old(elemset(keys)))
+//@   loop 2 invariant @range 0 <= j && j <= i && i < n && n == len(keys) && 1 <= i
+//@   loop 2 invariant @sorted_except_at_j forall p, q int :: 0 <= p && p < q && q <= i && q != j ==> keys[p] <= keys[q]
+//@   loop 2 invariant @same_elements seteq(elemset(keys), old(elemset(keys)))
+
+// The key as a mathematical function of (accumulated text, key set, value
+// function): keys in increasing order, "k=v" joined by ",".  kpred/kmax are the
+// predecessor and the maximum in a FINITE set of strings (kfin); krs(acc,d,v,k)
+// is the text after writing every key of d up to and including k.  Being a
+// function of the set and the value function only, the specification is
+// deterministic and independent of map iteration order by construction.
+
+//@ pure func kfin(d set[string]) bool
+//@ pure func khaspred(d set[string], k string) bool
+//@ pure func kpred(d set[string], k string) string
+//@ pure func khasmax(d set[string]) bool
+//@ pure func kmax(d set[string]) string
+//@ pure func krs(acc string, d set[string], v amap[string]string, k string) string
+
+//@ axiom kpred_is_an_upper_bound_of_smaller_members: forall d set[string], k string, x string :: {d[x], khaspred(d, k)} {d[x], kpred(d, k)} kfin(d) && d[x] && x < k ==> khaspred(d, k) && x <= kpred(d, k)
+//@ axiom kpred_is_a_smaller_member: forall d set[string], k string :: {khaspred(d, k)} {kpred(d, k)} kfin(d) && khaspred(d, k) ==> d[kpred(d, k)] && kpred(d, k) < k
+//@ axiom kmax_is_an_upper_bound: forall d set[string], x string :: {d[x], khasmax(d)} {d[x], kmax(d)} kfin(d) && d[x] ==> khasmax(d) && x <= kmax(d)
+//@ axiom kmax_is_a_member: forall d set[string] :: {khasmax(d)} {kmax(d)} kfin(d) && khasmax(d) ==> d[kmax(d)]
+//@ axiom kfin_setif: forall c bool, d set[string] :: {setif(c, d)} kfin(d) || !c ==> kfin(setif(c, d))
+//@ axiom kfin_union: forall a set[string], b set[string] :: {sunion(a, b)} kfin(a) && kfin(b) ==> kfin(sunion(a, b))
+//@ axiom krs_unfold: forall acc string, d set[string], v amap[string]string, k string :: {krs(acc, d, v, k), khaspred(d, k)} kfin(d) && d[k] ==> krs(acc, d, v, k) == (((khaspred(d, k) ? krs(acc, d, v, kpred(d, k)) + "," : acc) + k) + "=") + v[k]
+
+// Closed forms of the key for one and for two tags (consequences of the
+// definition above), and the question whether different tag sets can have the
+// same key - decided over real strings.
+//@ lemma key_of_one_tag [C05]: forall acc string, d set[string], v amap[string]string, k1 string :: kfin(d) && d[k1] && (forall x string :: {d[x]} d[x] ==> x == k1) ==> !khaspred(d, k1) && khasmax(d) && kmax(d) == k1 && kkey(acc, d, v) == ((acc + k1) + "=") + v[k1]
+//@ lemma key_of_two_tags [C05]: forall acc string, d set[string], v amap[string]string, k2 string, k3 string :: kfin(d) && d[k2] && d[k3] && k2 < k3 && (forall x string :: {d[x]} d[x] ==> x == k2 || x == k3) ==> !khaspred(d, k2) && khaspred(d, k3) && kpred(d, k3) == k2 && kmax(d) == k3 && kkey(acc, d, v) == ((((((acc + k2) + "=") + v[k2]) + ",") + k3) + "=") + v[k3]
+//@ lemma different_tag_sets_have_different_keys [C05] strings: forall acc string, k1 string, v1 string, k2 string, v2 string, k3 string, v3 string :: k1 != "" && k2 != "" && k2 < k3 ==> ((acc + k1) + "=") + v1 != ((((((acc + k2) + "=") + v2) + ",") + k3) + "=") + v3
+//@ lemma different_prefixes_have_different_keys [C05] strings: forall p1 string, p2 string, k1 string, v1 string, k2 string, v2 string :: p1 != "" && p2 != "" && k1 != "" && k2 != "" && (p1 != p2 || k1 != k2 || v1 != v2) ==> ((((p1 + "+") + k1) + "=") + v1) != ((((p2 + "+") + k2) + "=") + v2)
+
+//@ pred kacc(prefix string, b string) { prefix == "" ? b : (b + prefix) + "+" }
+//@ pred kkey(acc string, d set[string], v amap[string]string) { khasmax(d) ? krs(acc, d, v, kmax(d)) : acc }
+//@ pred kD2(m0 map[string]string, m1 map[string]string) { sunion(dom(m0), setif(true, dom(m1))) }
+//@ pred kV2(m0 map[string]string, m1 map[string]string) { restrict(kD2(m0, m1), override(valsof(m0), setif(true, dom(m1)), valsof(m1))) }
+//@ pred kkey2(prefix string, m0 map[string]string, m1 map[string]string) { kkey(kacc(prefix, ""), kD2(m0, m1), kV2(m0, m1)) }
+//@ pred kV1(m0 map[string]string) { restrict(dom(m0), valsof(m0)) }
